@@ -108,6 +108,7 @@ type primShape struct {
 	approx        float64              // > 0: a sampling collider of that resolution (positions to that accuracy, noisy normals, no ball queries)
 	oracleDist    func(pvec) float64   // independent (harness-side) distance from a point to the surface; may be nil
 	normalAt      func(p, n pvec) bool // if set: n is an admissible normal at the surface point p (replaces primNormalAt)
+	mustProbe     []pvec               // further points of the true shape (just inside its extremes) that the leak clause must look at
 	hasNoNormal   bool                 // the distance field offers no NormalSDF (extruded profiles): normal clauses are not asked
 }
 
@@ -498,6 +499,45 @@ func genCylinder(rng *rand.Rand) *primShape {
 	if rng.Intn(3) == 0 {
 		const k = 1.0 / (1 << 20)
 		miniature(s, adapt3("", "", &model3d.Cylinder{P1: v3c(pvScale(i3f(p1), k)), P2: v3c(pvScale(i3f(p2), k)), Radius: float64(r) * k}))
+	}
+	return s
+}
+
+// genTilted: a flat cylinder / cone / torus whose axis is a coordinate axis tilted by 1e-9 .. 1e-3 rad:
+// the rim reaches radius * sin(tilt) beyond the plane of the disc.  Only bounds and leaks are judged (shape "none").
+func genTilted(rng *rand.Rand, kind int) *primShape {
+	k := rng.Intn(3)
+	j := (k + 1 + rng.Intn(2)) % 3
+	tilt := []float64{1e-9, 1e-8, 1e-7, 1e-6, 1e-5, 1e-4, 1e-3}[rng.Intn(7)]
+	if rng.Intn(2) == 0 {
+		tilt = -tilt
+	}
+	radius := []float64{1, 2, 3}[rng.Intn(3)]
+	var axis pvec
+	axis[k], axis[j] = math.Cos(tilt), math.Sin(tilt)
+	// the unit vector across the axis that climbs most steeply along coordinate k
+	var u pvec
+	u[k], u[j] = math.Abs(math.Sin(tilt)), -math.Cos(tilt)*math.Copysign(1, tilt)
+	centre := pvec{float64(ri(rng, -2, 2)), float64(ri(rng, -2, 2)), float64(ri(rng, -2, 2))}
+	var s *primShape
+	h := 0.5
+	switch kind % 3 {
+	case 0:
+		s = solidOnly3("model3d.Cylinder", fmt.Sprintf("tilted %g rad, radius %g", tilt, radius),
+			&model3d.Cylinder{P1: v3c(centre), P2: v3c(pvAdd(centre, pvScale(axis, h))), Radius: radius})
+		s.mustProbe = []pvec{pvAdd(pvAdd(centre, pvScale(axis, h*(1-1e-9))), pvScale(u, radius*(1-1e-9))),
+			pvAdd(pvAdd(centre, pvScale(axis, h*1e-9)), pvScale(u, -radius*(1-1e-9)))}
+	case 1:
+		s = solidOnly3("model3d.Cone", fmt.Sprintf("tilted %g rad, radius %g", tilt, radius),
+			&model3d.Cone{Base: v3c(centre), Tip: v3c(pvAdd(centre, pvScale(axis, h))), Radius: radius})
+		s.mustProbe = []pvec{pvAdd(pvAdd(centre, pvScale(axis, h*1e-9)), pvScale(u, radius*(1-1e-8))),
+			pvAdd(pvAdd(centre, pvScale(axis, h*1e-9)), pvScale(u, -radius*(1-1e-8)))}
+	default:
+		inner := radius / 100
+		s = solidOnly3("model3d.Torus", fmt.Sprintf("tilted %g rad, radius %g", tilt, radius),
+			&model3d.Torus{Center: v3c(centre), Axis: v3c(axis), OuterRadius: radius, InnerRadius: inner})
+		s.mustProbe = []pvec{pvAdd(pvAdd(centre, pvScale(u, radius)), pvScale(axis, inner*(1-1e-9))),
+			pvAdd(pvAdd(centre, pvScale(u, -radius)), pvScale(axis, -inner*(1-1e-9)))}
 	}
 	return s
 }
@@ -1397,6 +1437,22 @@ func primProbeSolid(id int, s *primShape) primSolidRec {
 			}
 		}
 		flush()
+		// extreme points of the true shape supplied by the generator: contained, so they must be in the reported box
+		for _, c := range s.mustProbe {
+			rec.NSkin++
+			outside := false
+			for b := 0; b < s.dim; b++ {
+				if c[b] < mn[b] || c[b] > mx[b] {
+					outside = true
+				}
+			}
+			if outside && s.contains(c) {
+				rec.NLeaks++
+				if len(rec.Leaks) < 5 {
+					rec.Leaks = append(rec.Leaks, []int{int(math.Floor(4 * c[0])), int(math.Floor(4 * c[1])), int(math.Floor(4 * c[2]))})
+				}
+			}
+		}
 		// skin probes: points just outside every face of the reported box (closer than the
 		// quarter-unit lattice gets), over a grid of in-face positions that is not aligned with it
 		const skinN = 14
@@ -1926,6 +1982,11 @@ func init() {
 		}
 		for i := 0; i < 8; i++ {
 			shapes = append(shapes, genToolbox(rng, 1+16*i)) // teardrops with every length of direction vector
+		}
+		// flat cylinders / cones / tori on barely tilted axes (own stream)
+		tr := rand.New(rand.NewSource(int64(a.int("seed", 1))*7919 + 35))
+		for i := 0; i < 12*n; i++ {
+			shapes = append(shapes, genTilted(tr, i))
 		}
 		// derived solids (own stream: the records above do not depend on them)
 		shapes = append(shapes, genDerivedSolids(rand.New(rand.NewSource(int64(a.int("seed", 1))*7919+33)), n)...)
